@@ -48,7 +48,8 @@ def make_case(rc):
     elif k == 'column':
         letters, row, own = rc['letters'], rc['row'], rc['own']
         if own:
-            out = I.eval_formula('=COLUMN()', {}, addr='%s%d' % (letters, row))
+            # the same formula text also sits in other columns of the sheet: each cell answers for its own column
+            out = I.eval_formula('=COLUMN()', {'A1': '=COLUMN()', 'E1': '=COLUMN()'}, addr='%s%d' % (letters, row))
         else:
             out = I.eval_formula('=COLUMN(%s%s%s%d)' % (rc.get('d1', ''), letters, rc.get('d2', ''), row), {}, addr='B2')
         coq = 'CColumn %s %s' % (C.cstr(letters), C.cres(out))
@@ -57,7 +58,12 @@ def make_case(rc):
         # a lookup written as a formula over a workbook: checks translator defaults and reference resolution,
         # then is compared with the model applied to the values the workbook holds
         cells = {a: d(v) for a, v in rc['cells'].items()}
-        out = I.eval_formula(rc['formula'], cells, addr='H9')
+        if rc.get('xsheet'):
+            # the table lives on ANOTHER sheet; the formula's own sheet holds other values at the same coordinates
+            own = {a: I._perturbed(v) for a, v in cells.items()}
+            out = I.eval_formula(rc['formula'].replace('A1:', 'Data!A1:'), addr='H9', sheets=[('S', own), ('Data', cells)])
+        else:
+            out = I.eval_formula(rc['formula'], cells, addr='H9')
         coq = rc['coq_head'] + ' ' + C.cres(out)
         nt = True
     else:
@@ -190,7 +196,7 @@ def gen_formula_recipes(rng, n):
             rr, cc = rng.randint(1, rows + 1), rng.randint(1, 4)
             f = '=INDEX(A1:C%d,%d,%d)' % (rows, rr, cc)
             head = 'CIndex %s %s %s %s' % (C.clist(tj), C.cz(rr), C.copt(cc, C.cz), C.cz(1))
-        out.append({'kind': 'formula', 'formula': f, 'cells': cells, 'coq_head': head})
+        out.append({'kind': 'formula', 'formula': f, 'cells': cells, 'coq_head': head, 'xsheet': rng.random() < 0.4})
     return out
 
 
